@@ -90,6 +90,13 @@ def gen_cases(tier, seed):
         dupsrc = pol in ("none", "cfr-short") and not deref and r.random() < 0.25
         yield {"dupsrc": dupsrc, "mount": mount, "vanish": vanish, "onecpu": onecpu, "deref": deref, "spec": spec, "driver": driver, "updater": upd, "mode": mode, "bs": bs, "workers": 0 if onecpu or r.random() < 0.05 else r.choice([1, 2, 4, 8]), "policy": pol, "rules": rules,
                "plan": sch, "fs": "ext4"}
+    # a source whose length is reported as 0 although it has content (the kernel's own files): whatever is announced for it, no more
+    # than that may be reported as copied
+    for i, path in enumerate([p_ for p_ in ["/proc/crypto", "/proc/kallsyms", "/proc/version"] if os.path.exists(p_)]):
+        for driver in ("parfile", "parblock"):
+            for upd in ("record", "channel"):
+                yield {"unsized": path, "driver": driver, "updater": upd, "mode": ["live", "after"][i % 2], "bs": [4096, 1000, 65536][i % 3], "workers": 2, "policy": "unsized-source",
+                       "plan": {"sched": "free", "sched_seed": 1}, "fs": "ext4"}
     # every worker is made to give up early (as many operations that fail by themselves as there are workers: FIFOs whose destination
     # names are non-empty directories), with hundreds of entries still to come: the call has to return and the stream to end
     for i in range(8 if tier == "quick" else 60):
@@ -179,8 +186,46 @@ def run_stress(case, res):
         res["evals"].append({"key": ["stress", case["driver"], case["updater"], case["bs"], case["workers"]]})
 
 
+def run_unsized(case, res):
+    with core.Sandbox(case["fs"], "c12") as sb:
+        argv = [PROBE_BIN["probe_xcp"], case["driver"], case["updater"], case["mode"], str(case["workers"]), str(case["bs"]), "--", case["unsized"], "dst"]
+        run = core.run_plain(argv, sb.root, timeout=120)
+        if run.verdict != "exited":
+            res["inconc"].append("run-" + run.verdict)
+            return
+        stream, result = [], None
+        for line in run.stdout.splitlines():
+            try:
+                j = json.loads(line)
+            except ValueError:
+                continue
+            if j.get("t") == "result":
+                result = j
+            else:
+                stream.append(j)
+        if result is None:
+            res["inconc"].append("probe-no-result")
+            return
+        tag = "unsized source %s; %s/%s/%s bs=%d" % (case["unsized"], case["driver"], case["updater"], case["mode"], case["bs"])
+        sig0 = "%s:%s" % (case["driver"], case["updater"])
+        a = c = 0
+        for k, j in enumerate(stream):
+            if j["t"] == "size": a += j["v"]
+            elif j["t"] == "copied": c += j["v"]
+            if c > a:
+                res["viol"].append({"sig": sig0 + ":copied-exceeds-announced", "what": "after %d updates: Copied total %d > Size total %d; %s" % (k + 1, c, a, tag)})
+                break
+        if not result["disconnected"]:
+            res["viol"].append({"sig": sig0 + ":channel-not-closed", "what": "copy() returned but the channel is still connected; " + tag})
+        res["counters"]["unsized-sources"] = 1
+        res["evals"].append({"key": [case["driver"], case["updater"], case["mode"], "unsized", case["unsized"]], "sample": {"argv": argv[1:], "updates": stream[:6], "result": result}})
+
+
 def run_case(case):
     res = {"evals": [], "viol": [], "inconc": [], "counters": {}}
+    if case.get("unsized"):
+        run_unsized(case, res)
+        return res
     if case.get("stress"):
         run_stress(case, res)
         return res
